@@ -115,3 +115,29 @@ def hs_hostile(rng, key, good_reply_packet):
     out.append(("hs-error", bytes([0x83, 0x70, 0, 0, 0x20, 0x0F, 0, 0])))
     out.append(("hs-random", bytes(rng.randrange(256) for _ in range(rng.randrange(0, 90)))))
     return out
+
+
+# ---- fast python-side codecs (used only for very long sessions, where the extracted reference would be too slow) ----
+def v2_parse_fast(pkt):
+    pkt = bytes(pkt)
+    if len(pkt) < 56 or pkt[:2] != b"\x5a\x5a" or hashlib.md5(pkt[:-16] + sign_key()).digest() != pkt[-16:]:
+        return None
+    enc_key = hashlib.md5(sign_key()).digest()
+    try:
+        return Padding.unpad(AES.new(enc_key, AES.MODE_ECB).decrypt(pkt[40:-16]), 16)
+    except ValueError:
+        return None
+
+
+def v3_parse_request_fast(key, data):
+    data = bytes(data)
+    if len(data) < 40 or data[:2] != b"\x83\x70" or data[5] & 0xF != 6:
+        return None
+    body = data[6:-32]
+    if len(body) % 16:
+        return None
+    plain = AES.new(bytes(key), AES.MODE_CBC, iv=bytes(16)).decrypt(body)
+    if hashlib.sha256(data[:6] + plain).digest() != data[-32:]:
+        return None
+    pad = data[5] >> 4
+    return int.from_bytes(plain[:2], "big"), plain[2:len(plain) - pad]
